@@ -355,6 +355,8 @@ type object struct {
 	relVC   VC
 	// waitgroup
 	count int
+	// one-shot timer
+	armed bool
 }
 
 func (o *object) bump() {
@@ -868,6 +870,9 @@ func (o *object) recvReady() bool {
 	if o.kind == "ticker" {
 		return true // in a select a tick is always eventually there
 	}
+	if o.kind == "timer" {
+		return o.armed // time is not bounded between two steps: an armed timer may fire before anything else happens
+	}
 	if o.external {
 		return o.extReady()
 	}
@@ -889,6 +894,12 @@ func (t *thread) observe(o *object) {
 // doRecv performs a receive on a ready channel for thread t.
 func (s *Sched) doRecv(t *thread, o *object) (v any, ok bool) {
 	if o.kind == "ticker" {
+		t.mutated = true
+		return frozen, true
+	}
+	if o.kind == "timer" {
+		o.armed = false
+		o.bump()
 		t.mutated = true
 		return frozen, true
 	}
@@ -1021,6 +1032,9 @@ func Recv2[T any](ch <-chan T) (T, bool) {
 		recvOn:  []*object{o},
 		touch:   []*object{o},
 	})
+	if o.kind == "timer" {
+		s.point(&op{desc: "sleep(yield)"}) // waiting for a timer is waiting: let everybody else run
+	}
 	if !rok || rv == nil {
 		if rok {
 			return zero, true
@@ -1212,6 +1226,9 @@ func Select(hasDefault bool, cases ...Case) *Sel {
 	if sendClosed {
 		panic("send on closed channel")
 	}
+	if res.I >= 0 && (objs[res.I].kind == "timer" || objs[res.I].kind == "ticker") {
+		s.point(&op{desc: "sleep(yield)"}) // the select waited for the clock: a fair yield
+	}
 	return res
 }
 
@@ -1266,6 +1283,83 @@ func TimeTick(d time.Duration) <-chan time.Time {
 	s.nextObj++
 	s.objs[p] = &object{id: s.nextObj, kind: "ticker", ch: v}
 	return ch
+}
+
+// Timer replaces *time.Timer.  Controlled: a one-shot object that is ready from its creation until it fires or is
+// stopped - the model puts no bound on the time that passes between two steps, so a timer may fire before any other
+// pending event (and, since every other thread may run first, after any of them).
+type Timer struct {
+	C    <-chan time.Time
+	real *time.Timer
+	o    *object
+}
+
+// NewTimer replaces time.NewTimer.
+func NewTimer(d time.Duration) *Timer {
+	s := active
+	if s == nil {
+		rt := time.NewTimer(d)
+		return &Timer{C: rt.C, real: rt}
+	}
+	ch := make(chan time.Time, 1)
+	v, p := chanPtr(ch)
+	s.nextObj++
+	o := &object{id: s.nextObj, kind: "timer", ch: v, armed: true}
+	s.objs[p] = o
+	return &Timer{C: ch, o: o}
+}
+
+// After replaces time.After.
+func After(d time.Duration) <-chan time.Time { return NewTimer(d).C }
+
+// Stop prevents the timer from firing; it reports whether the timer was still armed.
+func (tm *Timer) Stop() bool {
+	if tm.real != nil {
+		return tm.real.Stop()
+	}
+	s := active
+	was := tm.o.armed
+	if s == nil {
+		tm.o.armed = false
+		return was
+	}
+	t := s.cur
+	s.point(&op{
+		desc:  fmt.Sprintf("timer-stop c%d", tm.o.id),
+		touch: []*object{tm.o},
+		exec: func() {
+			was = tm.o.armed
+			tm.o.armed = false
+			tm.o.bump()
+			t.mutated = true
+		},
+	})
+	return was
+}
+
+// Reset re-arms the timer; it reports whether the timer was still armed.
+func (tm *Timer) Reset(d time.Duration) bool {
+	if tm.real != nil {
+		return tm.real.Reset(d)
+	}
+	s := active
+	was := tm.o.armed
+	if s == nil {
+		tm.o.armed = true
+		return was
+	}
+	t := s.cur
+	s.point(&op{
+		desc:  fmt.Sprintf("timer-reset c%d", tm.o.id),
+		touch: []*object{tm.o},
+		exec: func() {
+			was = tm.o.armed
+			tm.o.armed = true
+			tm.o.bump()
+			t.mutated = true
+		},
+	})
+	return was
 }
 
 // Sleep replaces time.Sleep.  Controlled: a fair yield.  After a loop iteration that
